@@ -194,7 +194,27 @@ for _k in EXTRA:
                       'the tree under test are fed to the generators')
 EXTRA['C15'] = ('; both readings (fold) of ambiguous wall-clock times as '
                 'aware datetimes sharing one tzinfo, back to back; UTC '
-                'offsets that are not whole minutes')
+                'offsets that are not whole minutes; datetime subclasses; '
+                'the timestamp property beside time-like header fields')
+EXTRA['C08'] += ('; per-case CPU-time limit enforced by the kernel '
+                 '(ITIMER_VIRTUAL) so that a C call that never returns is '
+                 'attributed to its input')
+for _k in ('C01', 'C02', 'C05', 'C18'):
+    EXTRA[_k] += ('; objects returned earlier are kept and re-examined as '
+                  'the run goes on')
+for _k in ('C01', 'C04', 'C05', 'C12', 'C13', 'C16', 'C19', 'C20'):
+    EXTRA[_k] += ('; relations imposed between the fields of one assignment '
+                  '/ frame, catalogue-valued reply codes and class / method '
+                  'ids')
+EXTRA['C14'] += ('; every class constructed with 240 random subsets of its '
+                 'arguments; legacy / unknown-index and reply-code frames '
+                 'decoded between the walks')
+EXTRA['C17'] += ('; reply-code frames (every code x every error name) '
+                 'decoded between the walks; six ways of raising; python '
+                 '-OO')
+EXTRA['C19'] += '; copy / deepcopy / pickle protocols 0-5'
+EXTRA['C11'] += '; int subclasses (IntEnum, IntFlag) on the ladder'
+EXTRA['C16'] += ('; every fresh interpreter under another PYTHONHASHSEED')
 
 NOTE = ('Trusted base: CPython 3.12 sys.monitoring, struct/decimal/datetime; '
         'the hand-transcribed tables in vmon/refspec.py and the reference '
